@@ -258,8 +258,27 @@ func genSKX(c *vh.Ctx) {
 				if len(body) > 200 {
 					stride = 97
 				}
+				// field boundaries of this body: every truncation within two bytes of one is tried
+				var bnds []int
+				if kind == "dhe-rsa" {
+					pl := int(body[0])<<8 | int(body[1])
+					gl := int(body[2+pl])<<8 | int(body[3+pl])
+					yl := int(body[4+pl+gl])<<8 | int(body[5+pl+gl])
+					bnds = []int{2, 2 + pl, 4 + pl, 4 + pl + gl, 6 + pl + gl, 6 + pl + gl + yl, 8 + pl + gl + yl, 10 + pl + gl + yl}
+				} else {
+					s0 := 4 + int(body[3])
+					bnds = []int{4, s0, s0 + 2, s0 + 4}
+				}
+				near := func(n int) bool {
+					for _, b := range bnds {
+						if n >= b-2 && n <= b+2 {
+							return true
+						}
+					}
+					return false
+				}
 				for n := 0; n < len(body); n++ {
-					if !c.Thorough && n > 9 && n < len(body)-4 && n%stride != 0 {
+					if !c.Thorough && n > 9 && n < len(body)-4 && n%stride != 0 && !near(n) {
 						continue
 					}
 					runSKX(c, mk(body[:n], false, algs))
@@ -554,9 +573,9 @@ func genHS(c *vh.Ctx) {
 		{Vers: 0x0303, Kind: "aead", Wrap: "prefix", OVH: 16}, {Vers: 0x0304, Kind: "aead", Wrap: "xor", OVH: 16},
 		{Vers: 0x0302, Kind: "cbc", BS: 16, MS: 20},
 	}
-	reps := 3
+	reps := 6
 	if c.Thorough {
-		reps = 30
+		reps = 40
 	}
 	for _, p0 := range states {
 		for r := 0; r < reps; r++ {
@@ -613,8 +632,8 @@ func genHS(c *vh.Ctx) {
 				wire = append(wire, craft(q, []byte{23, 20}[c.Intn(2)], []byte{1}, o)...)
 			case 7: // empty handshake record
 				wire = append(wire, craft(q, 22, nil, o)...)
-			case 8: // a fatal alert
-				wire = append(wire, craft(q, 21, []byte{2, 40}, o)...)
+			case 8: // a fatal alert, or an alert of the wrong length
+				wire = append(wire, craft(q, 21, [][]byte{{2, 40}, {2}, {}, {1, 0, 0}}[c.Intn(4)], o)...)
 			}
 			if c.Intn(5) == 0 && len(wire) > 6 {
 				wire = wire[:len(wire)-1-c.Intn(5)]
@@ -624,6 +643,22 @@ func genHS(c *vh.Ctx) {
 				segs = append(segs, 1+c.Intn(40))
 			}
 			runHS(c, input{S: "hs", P: p, HaveVers: true, Complete: c.Intn(5) == 0, Wire: vh.Hex(wire), Segs: segs, Calls: nm + 2})
+		}
+	}
+	// malformed control records, deterministically for every state
+	for _, p0 := range states {
+		for _, rec := range []struct {
+			typ  byte
+			body []byte
+		}{{21, nil}, {21, []byte{2}}, {21, []byte{1, 0, 0}}, {21, []byte{1, 0}}, {20, nil}, {20, []byte{1, 1}}, {20, []byte{2}}, {23, nil}, {22, nil}, {24, []byte{1}}} {
+			p := fillParams(c, p0)
+			p.Seq, p.Spos = 0, 0
+			o := craftOpt{padByte: -1, explicit: c.Bytes(64)[:max(p.effE(), map2(p.Kind == "cbc", p.BS, 0))]}
+			wire := craft(p, rec.typ, rec.body, o)
+			q := p
+			q.Seq = 1
+			wire = append(wire, craft(q, 22, hmsg(14, nil), o)...)
+			runHS(c, input{S: "hs", P: p, HaveVers: true, Complete: false, Wire: vh.Hex(wire), Calls: 2})
 		}
 	}
 	// the first record of a connection (haveVers unset): SSLv2-looking, wrong type, absurd version
